@@ -90,6 +90,10 @@ def build_scn(c, seed=0, coolant=None, dz_user=None):
         setup['param_update_tol'] = c['tol']
     if dz_user is not None:
         setup['axial_mesh_size'] = dz_user
+    if c.get('planes') == 'near' and regions:
+        # requested planes a few tens of micrometres past the region boundaries: two mandatory planes
+        # inside one nominal step
+        setup['axial_plane'] = [round(L / 4 + 2e-5, 9), round(3 * L / 4 + 3e-5, 9)]
     pw = power_spec(c['power'], dd['rings'], nd, L, seed)
     # scale the power to the flow: about 120 K (lag part: 250 K) mixed-mean rise
     npin = S.n_pins(dd['rings'])
@@ -159,6 +163,9 @@ def cases_sweep(tier):
             for st in ('multi',):
                 for wall in ('none', 'flow'):
                     out.append(dict(base, ducts=du, structure=st, wall=wall))
+        for du in ('1', '2f'):
+            for cf in (1.0, 0.5):
+                out.append(dict(base, ducts=du, structure='multi', wall='none', planes='near', cf=cf))
         for st in ('multi', 'lf-simple', 'lf-6node'):
             for cf in (1.0, 0.5):
                 for wall in ('none', 'flow'):
@@ -192,6 +199,13 @@ def cases_sweep(tier):
                                         continue
                                     out.append(dict(design=d, ducts=du, fam=list(FAMS_WIRE[0]),
                                                     re=re, power=pw, wall=wall, structure=st, cf=cf))
+        for d in ('d2', 'd3'):
+            for du in ('1', '2f', '3'):
+                for cf in (1.0, 0.5):
+                    for wall in ('none', 'flow'):
+                        for re in ('lam', 'trans', 'turb'):
+                            out.append(dict(design=d, ducts=du, fam=list(FAMS_WIRE[0]), re=re, power='asym',
+                                            wall=wall, structure='multi', cf=cf, planes='near'))
         for d in ('d2', 'd3', 'b3'):
             for du in ('1', '2f', '2s'):
                 for ca in (False, True):
